@@ -149,6 +149,10 @@ SHAPES = [
      "doctext": ["Registers a user-defined macro for later.", "", "A note: this is not a function."]},
     {"k": "cpp_constructor", "doc": 1, "impl": "macro", "types": [], "params": [], "doctext": ["Macro constructor, see the macro note."]},
     {"k": "cpp_member", "doc": 1, "types": ["int"], "params": ["a"], "doctext": ["Not a macro although it says macro."]},
+    # declared types, but the definition names no parameter (it reads ARGV/ARGN)
+    {"k": "cpp_member", "doc": 1, "types": ["int", "args"], "params": []},
+    {"k": "cpp_member", "doc": 0, "types": ["str", "bool"], "params": []},
+    {"k": "cpp_constructor", "doc": 1, "types": ["path", "int"], "params": [], "impl": "macro"},
     # the doc text describes a parameter (':param x:') without stating its type: the declared type is still generated
     {"k": "cpp_member", "doc": 1, "types": ["int", "str"], "params": ["row", "col"], "doctext": ["Fills.", "", ":param row: the row"]},
     {"k": "cpp_constructor", "doc": 1, "types": ["bool"], "params": ["deep"], "doctext": [":param deep: copy deeply", ":returns: nothing"]},
@@ -169,6 +173,14 @@ def shape_jobs():
         for ctx_ in ([c1, sh], [c0, m0, cl, sh], [c1, sh, cl, m0], [c1, c0, sh], [c0, at, sh, cl, at],
                      [c1, sh, {"k": "cmake_parse_arguments"}, cl, dict(sh, doc=1 - sh["doc"])]):
             jobs.append([dict(e) for e in ctx_])
+    # two outer classes that each define an identical helper class of the same name (and identical twins side by side)
+    node = [{"k": "cpp_class", "doc": 1, "name": "Node", "doctext": ["A node."]}, {"k": "cpp_attr", "doc": 1, "name": "next", "default": "NULL", "doctext": ["Link."]},
+            {"k": "cpp_member", "doc": 1, "name": "get", "types": ["desc"], "params": ["out"], "doctext": ["Getter."]}, {"k": "close"}, {"k": "close"}]
+    for outer_doc in (1, 0):
+        jobs.append([{"k": "cpp_class", "doc": outer_doc, "name": "ForwardList"}] + [dict(e) for e in node] + [{"k": "close"},
+                    {"k": "cpp_class", "doc": outer_doc, "name": "Queue"}] + [dict(e) for e in node])
+        jobs.append([dict(e) for e in node] + [dict(e) for e in node])
+        jobs.append([{"k": "cpp_class", "doc": outer_doc, "name": "Twice"}] + [dict(e) for e in node] + [dict(e) for e in node])
     for cn, an, dv in ATTR_SHAPES:
         for doc in (1, 0):
             cls = {"k": "cpp_class", "doc": 1, "name": cn, "bases": ["Base"]}
